@@ -27,7 +27,9 @@ def oracle_hop_rule(args):
     problems = []
     if marg >= 1e-12 and bool(r["accepted"]) != want:
         problems.append("accepted=%d but the rule says %d (margin %.3g)" % (r["accepted"], want, marg))
-    if r["accepted"]:
+    if not np.all(np.isfinite(r["v"])):
+        problems.append("velocity after the hop attempt is not finite: %r" % (r["v"].tolist(),))
+    elif r["accepted"]:
         dp = mass * (r["v"] - v)
         s = float(np.dot(dp, u))
         perp = dp - s * u
@@ -109,6 +111,15 @@ def oracle_run_events(args):
                 loose = []
             if loose:
                 problems.append("hop event(s) without a state change: %r" % loose)
+            # the frustrated_hop events of a trace are exactly the rejections recorded through it, in order (for a clone:
+            # what its source held at the clone, then its own) - nothing leaks in from siblings or from the original
+            want_fr = list(getattr(tr, "_verif_fr", []))
+            got_fr = [(float(e["time"]), int(e["from"]), int(e["to"]), float(e["zeta"])) for e in fr]
+            if got_fr != want_fr:
+                extra = [e for e in got_fr if e not in want_fr]
+                missing = [e for e in want_fr if e not in got_fr]
+                problems.append("frustrated_hop events of a trace differ from the rejections recorded through it: %d unexpected %r, "
+                                "%d missing %r" % (len(extra), extra[:2], len(missing), missing[:2]))
             times = {s["time"]: s["active"] for s in snaps}
             for e in fr:
                 allfr.add((e["time"], e["from"], e["to"], e["zeta"]))
